@@ -292,6 +292,8 @@ func (e *env) applyOps(ctx context.Context, st *tikv.KVStore, txn *transaction.K
 }
 
 func (e *env) begin(st *tikv.KVStore, cid string, spec *TxnSpec) (*transaction.KVTxn, error) {
+	e.trace.add(Event{Kind: "begin_call", Client: cid})
+	callSeq := e.trace.lastSeq()
 	txn, err := st.Begin()
 	if err != nil {
 		return nil, err
@@ -307,7 +309,7 @@ func (e *env) begin(st *tikv.KVStore, cid string, spec *TxnSpec) (*transaction.K
 		txn.SetEnable1PC(true)
 	}
 	txn.SetCausalConsistency(spec.Causal)
-	e.trace.add(Event{Kind: "begin", Client: cid, F: map[string]interface{}{"start": txn.StartTS(), "mode": spec.Mode, "pessimistic": spec.Pessimistic, "causal": spec.Causal}})
+	e.trace.add(Event{Kind: "begin", Client: cid, F: map[string]interface{}{"start": txn.StartTS(), "mode": spec.Mode, "pessimistic": spec.Pessimistic, "causal": spec.Causal, "call_seq": callSeq}})
 	return txn, nil
 }
 
@@ -1049,6 +1051,7 @@ func main() {
 	w := bufio.NewWriterSize(outF, 1<<20)
 	enc := json.NewEncoder(w)
 	n := 0
+	oldDirs := []string{}
 	for in.Scan() {
 		line := strings.TrimSpace(in.Text())
 		if line == "" {
@@ -1061,6 +1064,15 @@ func main() {
 			continue
 		}
 		sort.Strings(sc.Keys)
+		// every scenario gets its own temp dir (unistore creates its data dir under TMPDIR); dirs of scenarios
+		// finished a while ago are removed so that a long run does not fill the disk
+		scDir, _ := os.MkdirTemp(tmp, "sc")
+		os.Setenv("TMPDIR", scDir)
+		oldDirs = append(oldDirs, scDir)
+		if len(oldDirs) > 4 {
+			os.RemoveAll(oldDirs[0])
+			oldDirs = oldDirs[1:]
+		}
 		res := func() (r map[string]interface{}) {
 			defer func() {
 				if p := recover(); p != nil {
